@@ -1,5 +1,6 @@
 use crate::diagnostic_emitter::MosResult;
 use crate::impl_request_handler;
+use crate::lsp::DocumentPath;
 use crate::lsp::{LspContext, RequestHandler};
 use itertools::Itertools;
 use lsp_types::request::Completion;
@@ -25,8 +26,7 @@ impl RequestHandler<Completion> for CompletionHandler {
                     .text_document_position
                     .text_document
                     .uri
-                    .to_file_path()
-                    .unwrap();
+                    .document_path();
 
                 let source_line = params.text_document_position.position.line as usize;
                 let source_column = params.text_document_position.position.character as usize;
